@@ -192,6 +192,10 @@ type caseRun struct {
 	exitedWhileOffered bool
 	// no shutdown before the case's churn burst has happened
 	holdQuit bool
+	// workers of an earlier connection whose address was taken over by a newer
+	// connection while they held a job: they are still running and still owe
+	// the dispatcher the one result for that job
+	old []*workerT
 }
 
 func (c *caseRun) hangObs() string {
@@ -628,7 +632,22 @@ func (c *caseRun) doPeer(id int) {
 	c.barrier()
 }
 
-func (c *caseRun) doResult(w *workerT, kind string) {
+func (c *caseRun) doResult(w *workerT, kind string) { c.report(w, kind, false) }
+
+// doLate: the worker of a connection that has since been replaced under the
+// same address delivers the one result it owes for the job it still holds.
+func (c *caseRun) doLate(w *workerT, kind string) {
+	for i, ow := range c.old {
+		if ow == w {
+			c.old = append(c.old[:i:i], c.old[i+1:]...)
+			break
+		}
+	}
+	c.t.Hit("ev.late-result." + kind)
+	c.report(w, kind, true)
+}
+
+func (c *caseRun) report(w *workerT, kind string, late bool) {
 	job := *w.held
 	id := c.reqs[job.Request()]
 	var b *batchT
@@ -658,6 +677,9 @@ func (c *caseRun) doResult(w *workerT, kind string) {
 	c.maxTries = nil
 	c.mtMu.Unlock()
 	op := fmt.Sprintf("result %d %s", w.id, kind)
+	if late {
+		op = fmt.Sprintf("late %d %d %s", w.id, job.Index(), kind)
+	}
 	disc := kind == errDisc
 	if b != nil && b.dead {
 		c.t.Hit("result.for-ended-batch")
@@ -678,7 +700,9 @@ func (c *caseRun) doResult(w *workerT, kind string) {
 			c.t.Hit("result.max-tries")
 		}
 		c.emit(op, fmt.Sprintf("j=%d %s mt=%d sc=%d", job.Index(), c.drain(), mt, c.rk.get(fmt.Sprintf("p%d", w.id))))
-		if disc {
+		if disc && !late {
+			// (the address of a replaced worker denotes its successor: its
+			// exit is not an event of that address)
 			c.emit(fmt.Sprintf("exit %d", w.id), "-")
 		}
 	}
@@ -695,7 +719,9 @@ func (c *caseRun) doResult(w *workerT, kind string) {
 	if kind == errOK && b != nil {
 		b.oks++
 	}
-	c.t.Hit("ev.result." + kind)
+	if !late {
+		c.t.Hit("ev.result." + kind)
+	}
 	if disc {
 		select {
 		case <-w.w.Done():
@@ -756,7 +782,7 @@ func (c *caseRun) final() {
 
 // ---- generator ---------------------------------------------------------
 
-func runCase(t *sink, idx int, rng *rand.Rand, steps int, allowMid bool, churn int) (hung bool) {
+func runCase(t *sink, idx int, rng *rand.Rand, steps int, allowMid bool, churn int, reconn *rand.Rand) (hung bool) {
 	t.line("case %d", idx)
 	c := &caseRun{t: t, rng: rng, workers: map[int]*workerT{}, reqs: map[*query.Request][2]int{},
 		peerCh: make(chan query.Peer), allowMid: allowMid}
@@ -766,6 +792,9 @@ func runCase(t *sink, idx int, rng *rand.Rand, steps int, allowMid bool, churn i
 		ConnectedPeers: func() (<-chan query.Peer, func(), error) { return c.peerCh, func() {}, nil },
 		NewWorker: func(p query.Peer) query.Worker {
 			w := query.NewVerifWorker(p)
+			if ow := c.workers[addrID(p.Addr())]; ow != nil && !ow.exited && ow.held != nil {
+				c.old = append(c.old, ow)
+			}
 			c.workers[addrID(p.Addr())] = &workerT{id: addrID(p.Addr()), w: w}
 			return w
 		},
@@ -814,6 +843,35 @@ func runCase(t *sink, idx int, rng *rand.Rand, steps int, allowMid bool, churn i
 		for id := 1; id <= maxPeers; id++ {
 			if w := c.workers[id]; w == nil || w.exited {
 				freeIDs = append(freeIDs, id)
+			}
+		}
+		// Reconnects that overtake the old connection's worker: the peer handler
+		// announces the new connection and the old worker notices the
+		// disconnect concurrently, so the dispatcher may see a peer connect
+		// under an address whose previous worker still has a job in flight;
+		// that worker then delivers the one result it owes (disconnected, or
+		// what the peer had still answered) afterwards.  (Generated while the
+		// address's current worker is connected and idle.)
+		if reconn != nil && !c.stopped {
+			q := reconn.Intn(100)
+			if q < 12 && len(holders) > 0 {
+				w := holders[reconn.Intn(len(holders))]
+				c.t.Hit("ev.peer.reconnect-overtakes-job-in-flight")
+				c.doPeer(w.id)
+				continue
+			}
+			if q < 45 {
+				var cand []*workerT
+				for _, ow := range c.old {
+					if nw := c.workers[ow.id]; ow.held != nil && nw != nil && !nw.exited && nw.held == nil {
+						cand = append(cand, ow)
+					}
+				}
+				if len(cand) > 0 {
+					kind := []string{errDisc, errDisc, errDisc, errDisc, errOK, errOK, errOK, errTO, errOther, errDisc}[reconn.Intn(10)]
+					c.doLate(cand[reconn.Intn(len(cand))], kind)
+					continue
+				}
 			}
 		}
 		r := rng.Intn(100)
@@ -927,7 +985,7 @@ func runCase(t *sink, idx int, rng *rand.Rand, steps int, allowMid bool, churn i
 
 // caseParams derives everything random about case idx from the seed alone, so
 // that a restarted child continues with the same cases.
-func caseParams(idx, n, mid int) (*rand.Rand, int, bool, int) {
+func caseParams(idx, n, mid int) (*rand.Rand, int, bool, int, *rand.Rand) {
 	rng := tr.Rng(int64(12 + 7919*(idx+1)))
 	steps, allowMid := 8+rng.Intn(40), idx%(n/(3*mid)+1) == 0
 	churn := 0
@@ -935,7 +993,13 @@ func caseParams(idx, n, mid int) (*rand.Rand, int, bool, int) {
 		// a few cases per run: well over a hundred distinct short-lived addresses
 		churn = 130 + rng.Intn(220)
 	}
-	return rng, steps, allowMid, churn
+	// every fourth case: reconnects that overtake the old connection's worker
+	// (a PRNG stream of its own; the other cases stay as they were)
+	var reconn *rand.Rand
+	if idx%4 == 1 {
+		reconn = tr.Rng(int64(500009 + 7919*(idx+1)))
+	}
+	return rng, steps, allowMid, churn, reconn
 }
 
 func sizes(thorough bool) (n, mid int) {
@@ -966,8 +1030,8 @@ func child(_ *tr.W, thorough bool) {
 	n, mid := sizes(thorough)
 	hung := 0
 	for idx := from; idx < to; idx++ {
-		rng, steps, allowMid, churn := caseParams(idx, n, mid)
-		if runCase(o, idx, rng, steps, allowMid, churn) {
+		rng, steps, allowMid, churn, reconn := caseParams(idx, n, mid)
+		if runCase(o, idx, rng, steps, allowMid, churn, reconn) {
 			// the dispatcher of that case is stuck for good (its goroutines are
 			// left behind); a few of those settle the verdict
 			if hung++; hung >= maxHungCases {
